@@ -235,6 +235,24 @@ CLAIMS = {
   technique="Lean 4 theorem proving (guards precede primitives, for all primitive instances) + boundary-grid differential "
             "with watchdog",
   design="§6 C14"),
+ "C10": dict(
+  text="Machine-checked proof on the model, for every instance of the primitives and on both the producing and the consuming "
+       "side: an HMAC signer/verifier exists only for a key of at least the digest size (32/48/64, table facts) and at most "
+       "KEYMAX bytes, and the MAC is computed with exactly the decoded key; RSA signers and verifiers exist only for a "
+       "modulus of at least 256 bytes; every EC key used to sign, verify, exchange or agree was accepted by the validity "
+       "primitive (what EC_KEY_check_key decides: on curve, order, d*G = Q) evaluated on exactly the given crv/x/y/d, with crv "
+       "one of the four named curves, and exchange requires both keys valid on the same curve; content keys, IVs and AES "
+       "key-wrapping keys have exactly the algorithm's length (lengths are table facts), never truncated or padded. "
+       "Grids on the implementation and the model with an independent pure-Python oracle (hmac/hashlib, big-integer RSA, "
+       "curve arithmetic): every HMAC key length, pre-generated 512..2040-bit RSA keys with genuine signatures, ~25 "
+       "invalid-EC-key constructions per curve through sign/verify/exchange/ECDH-ES, every content- and wrapping-key length.",
+  note="Trusted: Lean kernel, standard axioms; that EC_KEY_check_key implements the validity predicate is cross-checked "
+       "numerically by tools/ecmath.py and Jose/Crypto/Ec.lean, not proved. Not counted as invalid (stated assumptions): "
+       "extra leading zero bytes; coordinates >= p whose residue is on the curve; an ES256 header used with a P-384 key "
+       "(the library does not tie the algorithm name to the curve; the property does not demand it).",
+  technique="Lean 4 theorem proving (admission predicates, both sides) + exhaustive length grids / invalid-key constructions "
+            "with an independent numeric oracle",
+  design="§6 C10"),
 }
 
 NOT_YET = "check not built yet (framework under construction); will be claimed when its Lean theorems and correspondence exist"
